@@ -396,6 +396,9 @@ func genSrcFile(t *rapid.T, name string, minAnnotated int) *SrcFile {
 		}
 		sn++
 		d := SrcDecl{Kind: "struct", Name: fmt.Sprintf("Msg%d", sn)}
+		if rapid.IntRange(0, 15).Draw(t, "blankTypeName") == 8 {
+			d.Name = "_" // a type nobody can refer to (go/parser keeps it out of the file scope): its fields are fields all the same
+		}
 		if rapid.IntRange(0, 3).Draw(t, "structDoc") == 0 {
 			d.Doc = rapid.SampledFrom([]string{"Msg is a message", "消息体 @tag valid:\"doc\""}).Draw(t, "sdoc")
 		}
